@@ -19,6 +19,15 @@ PROBES = {
     'ref_undefined': '[foo] and [bar][foo] and [foo][]\n',
     'ref_first_wins': '[foo]: /first\n[foo]: /second\n\n[foo]\n',
     'ref_in_quote': '> [q]\n\n[q]: /quoted\n',
+    # labels that meet only after normalisation, defined in one document and merely used in another
+    'ref_def_eszett': '[\u1e9e]: /sharp-s "t"\n\n[\u1e9e]\n',
+    'ref_use_ss': '[SS] [ss] [\u00df]\n',
+    'ref_def_spaces': '[Foo   Bar]: /spaced\n\n[foo bar]\n',
+    'ref_use_spaces': '[FOO\nBAR] and [foo bar][]\n',
+    'ref_def_angle_paren': '[x]: </u rl> (ti tle)\n\n[x]\n',
+    'ref_use_x': '[x] and [X][] and ![x]\n',
+    'ref_def_in_list': '- [li]: /in-list\n\n[li]\n',
+    'ref_use_li': '[li] [LI][]\n',
     # html._charref
     'entities': '&copy; &copy &#35; &amp; &ouml; &notanentity;\n',
     'entity_def': '[a]: /u&copy\n\n[a] &copy\n',
@@ -75,6 +84,13 @@ PROBES = {
     'list_mixed': '- a\n\n  para\n- > q\n- ```\n  c\n  ```\n',
     'list_para': '- a\n- b\n\npara after\n',
     'quote': '> quote\n\npara after\n',
+    'list_quote_last': '- a\n- > q\n',
+    'quote_olist_nested': '> 1. a\n>    1. b\n> 2. c\n',
+    'list_table': '- a | b\n  --|--\n  1 | 2\n',
+    'quote_quote_list': '> > - x\n> >\n> > y\n',
+    'list_code_last': '- a\n\n      code\n',
+    'deep_list': '- a\n  - b\n    - c\n      1. d\n',
+    'olist_start': '7) seven\n8) eight\n',
     'quote_list': '> - a\n> - b\n>\n> tail\n',
     'quote_setext': '> Foo\n> ---\n',
     'quote_lazy': '> a\nlazy\n',
